@@ -144,6 +144,14 @@ static void gen(Emitter &em, const Options &opt) {
             emit("sp.split form=cstr" + tail);
             if (sp.size() == 1 && sp[0] > 0) emit("sp.split form=char" + tail);
         }
+        // every admissible split character in both case modes against its near misses: the bytes that differ from it
+        // only in bit 5 or by +-32 (what a too-eager ASCII fold would confuse: '{' / '[', '@' / '`', ' ' / NUL, '-' / CR)
+        for (int c = 1; c < 128; ++c) for (int ci = 0; ci < 2; ++ci) {
+            std::string sp(1, (char)c), b = "x";
+            b += (char)(c ^ 0x20); b += "y"; b += sp; b += "z"; b += (char)((c + 32) & 0x7F); b += (char)((c + 96) & 0x7F); b += "w";
+            std::string tail = " ci=" + u(ci) + " max=" + SMAX + " sep=" + hex_bytes(sp) + " s=" + hex_bytes(b);
+            emit("sp.split form=char" + tail); emit("sp.split form=str" + tail); emit("sp.split form=cstr" + tail);
+        }
         // every admissible split character once
         for (int c = 1; c < 128; ++c) { std::string sp(1, (char)c); emit("sp.split form=char ci=" + u(c & 1) + " max=" + SMAX + " sep=" + hex_bytes(sp) + " s=" + hex_bytes("xA" + sp + sp + "b" + flip_case(rng, sp) + "a")); }
     }
